@@ -52,6 +52,15 @@ def check_vector(P, vec, variants=False, channels=False):
     elif not (isinstance(sc, tuple) and len(sc) == 1 and type(sc[0]) is float and sc[0] == got):
         P.violation("attr-vs-scores", "C02:scores-differs-from-base_score", {"vector": vec}, observed=repr(sc),
                     base_score=repr(got))
+    if channels or P.evaluations % 7 == 3:
+        # the same scores from the object obtained another way (a copy, a pickle round trip, from_rh_vector, the extractor)
+        how = obs.BUILT[(P.evaluations // 7) % len(obs.BUILT)]
+        ok2, o2 = obs.call(obs.build, L, "4", vec, how)
+        if ok2 and o2 is not None:
+            P.ev("scores-of-object-obtained-otherwise")
+            ok2, sc2 = obs.call(o2.scores)
+            if not ok2 or sc2 != (got,):
+                P.violation("score-channels", "C02:scores-differ-for-the-object-obtained-by:" + how, {"vector": vec}, constructor=repr((got,)), other=repr(sc2))
     if channels or P.evaluations % 5 == 0:
         obs.check_score_channels(P, "C02", o, vec, (got,))
     if "mv" in d:
